@@ -489,7 +489,7 @@ fn check_fk_call_order(order: &[u8]) -> Result<bool, (String, String)> {
     step_pair(&d1, &d2, &sut, r, true)
 }
 
-fn fk_call_orders() -> Vec<Vec<u8>> {
+pub fn fk_call_orders() -> Vec<Vec<u8>> {
     fn rec(cur: &mut Vec<u8>, used: &mut [bool; 6], out: &mut Vec<Vec<u8>>) {
         if cur.len() == 6 {
             out.push(cur.clone());
